@@ -37,11 +37,26 @@ def sync_gosum():
             f.write("\n".join(sorted(have | want)) + "\n")
 
 def build_plain():
-    """worker built against /repo's current working tree (replace => /repo)."""
+    """worker built against the repository's current working tree (replace => /repo, or
+    => $VERIF_REPO when a scratch copy is being checked, e.g. a seeded change)."""
     os.makedirs(BUILD, exist_ok=True)
     sync_gosum()
     out = os.path.join(BUILD, "worker")
-    rc, o = run(["go", "build", "-o", out, "./cmd/worker"], cwd=HARNESS)
+    cmd = ["go", "build", "-o", out]
+    scratch = None
+    if REPO != "/repo":
+        scratch = tempfile.mkdtemp(prefix="verif-mod-")
+        mod = open(os.path.join(HARNESS, "go.mod")).read()
+        mod = mod.replace("replace github.com/0chain/common => /repo", "replace github.com/0chain/common => " + REPO)
+        open(os.path.join(scratch, "harness.mod"), "w").write(mod)
+        shutil.copy(os.path.join(HARNESS, "go.sum"), os.path.join(scratch, "harness.sum"))
+        cmd.append("-modfile=" + os.path.join(scratch, "harness.mod"))
+    cmd.append("./cmd/worker")
+    try:
+        rc, o = run(cmd, cwd=HARNESS)
+    finally:
+        if scratch:
+            shutil.rmtree(scratch, ignore_errors=True)
     if rc != 0:
         die("build of worker against %s failed:\n%s" % (REPO, o))
     return out
